@@ -321,14 +321,14 @@ THRESHOLDS = ["max", 2048, None]
 def run(ctx):
     short, medium = corpus()
     blocks1 = [{"items": s, "mode": "all1", "threshold": t} for s in short + medium for t in THRESHOLDS]
-    n = ctx.each("cuts1", blocks1, check_block, stop_after=4, timeout=300)
+    n = ctx.each("cuts1", blocks1, check_block, stop_after=4, timeout=150)
     blocksc = [{"items": s, "mode": "charwise", "threshold": t} for s in short + medium for t in THRESHOLDS]
-    ctx.each("charwise", blocksc, check_block, stop_after=4, timeout=300)
+    ctx.each("charwise", blocksc, check_block, stop_after=4, timeout=150)
     two = [s for s in short + medium if len(buf.render_stream(s)[0]) <= 300]
     if ctx.tier == "quick":
         two = [s for s in two if len(buf.render_stream(s)[0]) <= 150]
     blocks2 = [{"items": s, "mode": "all2", "threshold": t} for s in two for t in THRESHOLDS]
-    ctx.each("cuts2", blocks2, check_block, stop_after=4, timeout=1200)
+    ctx.each("cuts2", blocks2, check_block, stop_after=4, timeout=ctx.scale(300, 1200))
     ctx.exhaustive["corpus-cuts"] = {
         "complete": True,
         "n_streams": len(short + medium),
